@@ -312,4 +312,63 @@ example : (find? (run (init 10 900 900) (demoOps.take 17)).ds "a").map
 
 example : (run (init 10 900 900) (demoOps.take 8)).free < (step (run (init 10 900 900) (demoOps.take 8)) (.cb 0)).1.free := by decide
 
+/-! ### a purge racing the writer thread of a page-out job -/
+
+namespace Aux
+
+theorem purge_with_files (s : St) (k : String) (fl : List (String × Seg)) :
+    purge { s with files := fl } k = { purge s k with files := fl } := by
+  unfold purge
+  cases find? s.ds k with
+  | none => rfl
+  | some d =>
+    simp only
+    split
+    · rfl
+    · split
+      · rfl
+      · cases find? s.segs k <;> rfl
+
+theorem purge_segs_sub (s : St) (k x : String) (g : Seg) (hn : Nd s.segs) (h : find? (purge s k).segs x = some g) :
+    find? s.segs x = some g := by
+  unfold purge at h
+  cases hd : find? s.ds k with
+  | none => simpa [hd] using h
+  | some d =>
+    simp only [hd] at h
+    split at h
+    · exact h
+    · split at h
+      · exact h
+      · cases hs : find? s.segs k with
+        | none => simpa [hs] using h
+        | some g0 =>
+          simp only [hs] at h
+          by_cases hx : x = k
+          · subst hx; rw [find?_erase_self _ _ hn] at h; cases h
+          · rwa [find?_erase_ne _ _ _ hx] at h
+
+end Aux
+
+/-- **Handler-atomic steps lose nothing for a purge that races the page-out writer thread.** If a purge of any key is served
+while the writer thread of page-out job `id` is between writing its file and unlinking the segment, the result reported to
+the callback and the whole state — free space, datasets, segments, jobs, lock — are those of "the purge, then the job's I/O
+part", except for a file the writer may have left on disk. (The accounting theorems therefore cover this interleaving.) -/
+theorem c08_midio_purge_atomic (s : St) (id : Nat) (k : String) (j : Job) (g : Seg) (hj : findJob s.jobs id = some j)
+    (hk : j.kind = .out) (hio : j.io = none) (hseg : find? s.segs j.key = some g) (hn : Nd s.segs) :
+    (ioMidPurge s id k).2 = (ioStep (purge s k) id .ok).2 ∧
+    ∃ fl, (ioMidPurge s id k).1 = { (ioStep (purge s k) id .ok).1 with files := fl } := by
+  obtain ⟨pj, _, _, _, _, pf, _, _⟩ := Aux.purge_frame s k
+  unfold ioMidPurge ioStep
+  simp only [hj, hio, hk, pj, Option.isSome_none, bne_self_eq_false, Bool.or_self, Bool.false_eq_true, ↓reduceIte, hseg,
+    Aux.purge_with_files, ne_eq, not_true_eq_false]
+  cases hs1 : find? (purge s k).segs j.key with
+  | none => exact ⟨rfl, put s.files j.key g, by simp [pj]⟩
+  | some g1 =>
+    have : g1 = g := by
+      have := Aux.purge_segs_sub s k j.key g1 hn hs1
+      rw [hseg] at this; exact (Option.some.inj this).symm
+    subst this
+    exact ⟨rfl, put s.files j.key g1, by simp [pj, pf]⟩
+
 end EkwVerif.Shm
